@@ -284,6 +284,8 @@ def _record_derived(recv, fn, prog=None, module=None) -> bool:
                 return True
             if p[0] == "repeat":
                 return True
+            if p[0] == "alt" and any(derived(a) for a in p[1]):
+                return True
         return False
 
     return derived(text_structure(fn, e))
